@@ -580,4 +580,144 @@ theorem dersR_get (ndu : ℕ → ℕ → K) (p nd L : ℕ) (hL : 0 < L) :
       rw [hget]
       congr 2; omega
 
+
+/-! ## `_bspline_single_ev_single` -/
+
+theorem cox_support (t : ℕ → K) (N : ℕ) (u : K) (hmono : ∀ i j, i ≤ j → j < N → t i ≤ t j) :
+    ∀ p i, i + p + 1 < N → (u < t i ∨ t (i + p + 1) ≤ u) → cox t u p i = 0 := by
+  intro p
+  induction p with
+  | zero =>
+    intro i _ h
+    unfold cox
+    have : ¬ (t i ≤ u ∧ u < t (i + 1)) := by
+      rintro ⟨h1, h2⟩
+      rcases h with h | h
+      · exact absurd (lt_of_lt_of_le h h1) (lt_irrefl _)
+      · exact absurd (lt_of_lt_of_le h2 h) (lt_irrefl _)
+    simp [this]
+  | succ p ih =>
+    intro i hi h
+    have h1 : cox t u p i = 0 := by
+      apply ih i (by omega)
+      rcases h with h | h
+      · exact Or.inl h
+      · exact Or.inr (le_trans (hmono _ _ (by omega) (by omega)) h)
+    have h2 : cox t u p (i + 1) = 0 := by
+      apply ih (i + 1) (by omega)
+      rcases h with h | h
+      · exact Or.inl (lt_of_lt_of_le h (hmono _ _ (by omega) (by omega)))
+      · right
+        have e : i + 1 + p + 1 = i + (p + 1) + 1 := by omega
+        rw [e]; exact h
+    simp [cox, h1, h2]
+
+theorem getD_set_self (l : List K) (j : ℕ) (v : K) (h : j < l.length) : (l.set j v).getD j 0 = v := by
+  simp [List.getD_eq_getElem?_getD, h]
+
+theorem getD_set_ne (l : List K) (j x : ℕ) (v : K) (h : j ≠ x) : (l.set j v).getD x 0 = l.getD x 0 := by
+  simp [List.getD_eq_getElem?_getD, List.getElem?_set_ne h]
+
+theorem singleInner_length (t : ℕ → K) (i k : ℕ) (u : K) :
+    ∀ (cnt j : ℕ) (N : List K) (saved : K), (singleInner t i k u cnt j N saved).length = N.length := by
+  intro cnt
+  induction cnt with
+  | zero => intro j N saved; rfl
+  | succ c ih =>
+    intro j N saved
+    unfold singleInner
+    simp only []
+    split_ifs <;> rw [ih] <;> simp
+
+/-- the inner loop of `_bspline_single_ev_single` turns degree-`k'` values into degree-`k'+1` values
+(`k = k'+1`), in place, reading only cells it has not yet overwritten -/
+theorem singleInner_spec (t : ℕ → K) (i k' : ℕ) (u : K) :
+    ∀ (cnt j : ℕ) (N : List K) (saved : K),
+      saved = (u - t (i + j)) * (cox t u k' (i + j) / (t (i + j + k' + 1) - t (i + j))) →
+      (∀ x, j ≤ x → x ≤ j + cnt → N.getD x 0 = cox t u k' (i + x)) →
+      j + cnt < N.length + 1 →
+      (∀ x, j ≤ x → x < j + cnt →
+          (singleInner t i (k' + 1) u cnt j N saved).getD x 0 = cox t u (k' + 1) (i + x)) ∧
+      (∀ x, x < j → (singleInner t i (k' + 1) u cnt j N saved).getD x 0 = N.getD x 0) := by
+  intro cnt
+  induction cnt with
+  | zero =>
+    intro j N saved _ _ _
+    exact ⟨fun x h1 h2 => by omega, fun x _ => rfl⟩
+  | succ c ih =>
+    intro j N saved hs hN hlen
+    have hj1 : N.getD (j + 1) 0 = cox t u k' (i + (j + 1)) := hN (j + 1) (by omega) (by omega)
+    have hjl : j < N.length := by omega
+    -- the value written to cell j and the new `saved`, in both branches
+    have hval : ∀ v s', (v = saved + (t (i + j + (k' + 1) + 1) - u) * (N.getD (j + 1) 0 / (t (i + j + (k' + 1) + 1) - t (i + j + 1)))) →
+        (s' = (u - t (i + j + 1)) * (N.getD (j + 1) 0 / (t (i + j + (k' + 1) + 1) - t (i + j + 1)))) →
+        (∀ x, j ≤ x → x < j + (c + 1) →
+          (singleInner t i (k' + 1) u c (j + 1) (N.set j v) s').getD x 0 = cox t u (k' + 1) (i + x)) ∧
+        (∀ x, x < j → (singleInner t i (k' + 1) u c (j + 1) (N.set j v) s').getD x 0 = N.getD x 0) := by
+      intro v s' hv hs'
+      have hs2 : s' = (u - t (i + (j + 1))) * (cox t u k' (i + (j + 1)) / (t (i + (j + 1) + k' + 1) - t (i + (j + 1)))) := by
+        rw [hs', hj1]
+        have e1 : i + j + 1 = i + (j + 1) := by omega
+        have e2 : i + j + (k' + 1) + 1 = i + (j + 1) + k' + 1 := by omega
+        rw [e1, e2]
+      have hN2 : ∀ x, j + 1 ≤ x → x ≤ j + 1 + c → (N.set j v).getD x 0 = cox t u k' (i + x) := by
+        intro x h1 h2
+        rw [getD_set_ne N j x v (by omega)]
+        exact hN x (by omega) (by omega)
+      have := ih (j + 1) (N.set j v) s' hs2 hN2 (by simp; omega)
+      refine ⟨?_, ?_⟩
+      · intro x h1 h2
+        rcases Nat.lt_or_ge j x with hx | hx
+        · exact this.1 x (by omega) (by omega)
+        · have hxj : x = j := by omega
+          subst hxj
+          rw [this.2 x (by omega), getD_set_self N x v hjl, hv, hs, hj1]
+          simp only [cox]
+          have e1 : i + x + k' + 2 = i + x + (k' + 1) + 1 := by omega
+          have e2 : i + (x + 1) = i + x + 1 := by omega
+          rw [e1, e2]
+          ring
+      · intro x hx
+        rw [this.2 x (by omega), getD_set_ne N j x v (by omega)]
+    unfold singleInner
+    simp only []
+    by_cases hz : N.getD (j + 1) 0 = 0
+    · simp only [hz, if_true]
+      exact hval saved 0 (by rw [hz]; simp) (by rw [hz]; simp)
+    · simp only [hz, if_false]
+      exact hval _ _ rfl rfl
+
+theorem singleOuter_spec (t : ℕ → K) (i p : ℕ) (u : K) :
+    ∀ (cnt k : ℕ) (N : List K), k + cnt = p + 1 → 1 ≤ k → N.length = p + 1 →
+      (∀ x, x + k ≤ p + 1 → N.getD x 0 = cox t u (k - 1) (i + x)) →
+      (singleOuter t i p u cnt k N).getD 0 0 = cox t u p i := by
+  intro cnt
+  induction cnt with
+  | zero =>
+    intro k N hk _ _ hN
+    have : k = p + 1 := by omega
+    subst this
+    unfold singleOuter
+    simpa using hN 0 (by omega)
+  | succ c ih =>
+    intro k N hk hk1 hlen hN
+    obtain ⟨k', rfl⟩ : ∃ k', k = k' + 1 := ⟨k - 1, by omega⟩
+    unfold singleOuter
+    simp only []
+    have h0 : N.getD 0 0 = cox t u k' (i + 0) := by simpa using hN 0 (by omega)
+    have hsaved : (if N.getD 0 0 = 0 then (0 : K) else ((u - t i) * N.getD 0 0) / (t (i + (k' + 1)) - t i))
+        = (u - t (i + 0)) * (cox t u k' (i + 0) / (t (i + 0 + k' + 1) - t (i + 0))) := by
+      by_cases hz : N.getD 0 0 = 0
+      · rw [if_pos hz, ← h0, hz]; simp
+      · rw [if_neg hz, ← h0]
+        simp only [Nat.add_zero]
+        have e : i + (k' + 1) = i + k' + 1 := by omega
+        rw [e, mul_div_assoc]
+    have hin := singleInner_spec t i k' u (p - (k' + 1) + 1) 0 N _ hsaved
+      (fun x _ hx => by simpa using hN x (by omega)) (by rw [hlen]; omega)
+    apply ih (k' + 1 + 1) _ (by omega) (by omega) (by rw [singleInner_length]; exact hlen)
+    intro x hx
+    have := hin.1 x (Nat.zero_le _) (by omega)
+    simpa using this
+
 end Pyiga.BSpline
